@@ -824,6 +824,23 @@ static DBusMessage *load_msg (const unsigned char *buf, size_t n, DBusMessageLoa
   return m;
 }
 
+/* LOADMAX <max> <hex> : one loader with max_message_size = <max> is fed the bytes; was a message produced, was the stream declared corrupt? */
+static void cmd_loadmax (int argc, char **argv)
+{
+  size_t n; unsigned char *buf; DBusMessageLoader *l; DBusMessage *m; int corrupt;
+  if (argc < 3 || !(buf = unhex (argv[2], &n))) { ob_puts (&out, "ERR badargs"); return; }
+  l = _dbus_message_loader_new ();
+  _dbus_message_loader_set_max_message_size (l, atol (argv[1]));
+  loader_feed (l, buf, n);
+  _dbus_message_loader_queue_messages (l);
+  corrupt = _dbus_message_loader_get_is_corrupted (l);
+  m = _dbus_message_loader_pop_message (l);
+  ob_printf (&out, "OK msg=%d corrupt=%d", m != NULL, corrupt);
+  if (m) dbus_message_unref (m);
+  _dbus_message_loader_unref (l);
+  free (buf);
+}
+
 static int apply_edit (DBusMessage *m, const char *a)
 {
   int ret = -1; char *v = NULL; int del;
@@ -1473,6 +1490,7 @@ int main (int argc, char **argv)
       n = split_args (line, args, 512);
       if (n == 0) { ob_puts (&out, "ERR empty"); reply (&out); continue; }
       if (!strcmp (args[0], "DEMARSHAL")) cmd_demarshal (n, args);
+      else if (!strcmp (args[0], "LOADMAX")) cmd_loadmax (n, args);
       else if (!strcmp (args[0], "LOADER")) cmd_loader (n, args);
       else if (!strcmp (args[0], "LOADERCUTS")) cmd_loadercuts (n, args);
       else if (!strcmp (args[0], "BUILD")) cmd_build (n, args);
